@@ -23,6 +23,18 @@ type vres struct {
 	where string // rendered path
 	msg   string
 	steps int // marshal / unmarshal calls made
+
+	in     reflect.Value // silent differences: what was written / what came back (rendered on demand)
+	out    any
+	hasOut bool
+}
+
+// text is the full deterministic description of the verdict.
+func (r *vres) text() string {
+	if !r.hasOut {
+		return r.msg
+	}
+	return fmt.Sprintf("%s; wrote %s = %s, got back %s = %s", r.msg, r.in.Type(), shortStr(render(r.in), 300), reflect.TypeOf(r.out), shortStr(render(reflect.ValueOf(r.out)), 300))
 }
 
 var addrRE = regexp.MustCompile(`0x[0-9a-fA-F]+`)
@@ -64,7 +76,7 @@ func compareTop(in reflect.Value, out any) *vres {
 		return &vres{kind: "ok", steps: 2}
 	}
 	d.steps = 2
-	d.msg = fmt.Sprintf("%s; wrote %s = %s, got back %s = %s", d.msg, in.Type(), render(in), reflect.TypeOf(out), render(reflect.ValueOf(out)))
+	d.in, d.out, d.hasOut = in, out, true
 	return d
 }
 
@@ -125,7 +137,9 @@ func compare(a, b reflect.Value, path string) *vres {
 			return &vres{kind: "len", where: path, msg: fmt.Sprintf("map length %d became %d %s", a.Len(), b.Len(), at())}
 		}
 		keys := a.MapKeys()
-		sort.Slice(keys, func(i, j int) bool { return render(keys[i]) < render(keys[j]) })
+		if len(keys) > 1 {
+			sort.Slice(keys, func(i, j int) bool { return render(keys[i]) < render(keys[j]) })
+		}
 		for _, k := range keys {
 			bv := b.MapIndex(k)
 			if !bv.IsValid() {
@@ -314,46 +328,68 @@ func failKind(v *Val, r *vres) string {
 	return r.kind
 }
 
-// attribute returns the signature of a failing value and the minimal failing sub-value it is attributed to:
-// if a sub-value fails when written on its own, the failure belongs to that sub-value's class (recursively);
-// otherwise this value's own shape is minimal and is classified. A panic whose minimal sub-value fails only
-// silently is marked "+nested-panic" (same root, worse manifestation in a typed slot).
+// attribute returns the signature of a failing value and the minimal failing sub-value it is attributed to.
+// A failure is handed down to a sub-value only when that sub-value, written on its own, fails in a way that
+// explains it:
+//
+//	panic / refused   a sub-value that panics / is refused on its own; a panic is also explained by a sub-value
+//	                  whose own type changes silently, if the panic is the decoder refusing to store a wrongly
+//	                  typed result in a typed slot (reflect assignability) — marked "+nested-panic"
+//	silent, below the top level   the first sub-value that fails silently on its own (same kind preferred)
+//	silent, at the top level      only a smaller value of the same shape (a singleton of a two-element container)
+//	                              or, for a pointer, its pointee failing the same way at its own top level
+//
+// otherwise the value's own shape is minimal and is classified.
 func attribute(v *Val, r *vres) (sig string, min *Val, minRes *vres) {
 	kind := failKind(v, r)
-	var first, same *Val
+	self := func() (string, *Val, *vres) { return classify(v, r) + "/" + kind, v, r }
+	var first, same, typedRoot, sameShape *Val
 	for _, k := range v.Kids {
-		kk := failKind(k, wbOf(k))
+		kr := wbOf(k)
+		kk := failKind(k, kr)
 		if kk == "" {
 			continue
 		}
-		if first == nil {
+		silent := kk != "panic" && kk != "error"
+		if first == nil && silent {
 			first = k
 		}
 		if kk == kind && same == nil {
 			same = k
 		}
-	}
-	pick := same
-	if pick == nil {
-		pick = first
-	}
-	if pick == nil {
-		return classify(v, r) + "/" + kind, v, r
-	}
-	if kind == "panic" && same == nil {
-		// no sub-value panics on its own. The panic is attributed to a silently failing sub-value only if it is
-		// the decoder refusing to store that sub-value's wrong result in a typed slot (a reflect assignability
-		// panic); any other panic belongs to this shape itself.
-		if !strings.HasPrefix(r.msg, "reflect") {
-			return classify(v, r) + "/" + kind, v, r
+		if kk == "type" && kr.where == "" && typedRoot == nil {
+			typedRoot = k
 		}
-		s, _, _ := attribute(pick, wbOf(pick))
-		if !strings.Contains(s, "+nested-panic") {
-			s += "+nested-panic"
+		if kk == kind && kr.where == "" && (k.S == v.S || v.S.K == "ptr") && sameShape == nil {
+			sameShape = k
 		}
-		return s, v, r
 	}
-	return attribute(pick, wbOf(pick))
+	switch {
+	case kind == "panic" || kind == "error":
+		if same != nil {
+			return attribute(same, wbOf(same))
+		}
+		if kind == "panic" && typedRoot != nil && strings.HasPrefix(r.msg, "reflect") {
+			s, _, _ := attribute(typedRoot, wbOf(typedRoot))
+			if !strings.Contains(s, "+nested-panic") {
+				s += "+nested-panic"
+			}
+			return s, v, r
+		}
+		return self()
+	case r.where == "":
+		if sameShape != nil {
+			return attribute(sameShape, wbOf(sameShape))
+		}
+		return self()
+	}
+	if same != nil && same != sameShape {
+		return attribute(same, wbOf(same))
+	}
+	if first != nil {
+		return attribute(first, wbOf(first))
+	}
+	return self()
 }
 
 // classify describes the class of a minimal failing value (never its concrete contents).
@@ -388,20 +424,26 @@ func classify(v *Val, r *vres) string {
 			rv = rv.Elem()
 		}
 		pre := strings.Repeat("ptr", n)
+		base := stripPtr(s)
+		// a nil chain that is refused or panics: the base type matters (the decoder is built for it)
+		lbl := ""
+		if (r.kind == "loud" || r.kind == "panic") && base.K == "leaf" && ctorOf(base) == "struct" {
+			lbl = "-" + base.Leaf
+		}
 		switch {
 		case lvl < 0:
-			return pre + "-to-" + ctorOf(stripPtr(s))
+			return pre + "-to-" + ctorOf(base)
 		case n == 1:
-			if b := stripPtr(s); ctorOf(b) == "struct" && b.K == "leaf" {
-				return "ptr-nil-" + b.Leaf
+			if lbl == "" {
+				lbl = "-" + ctorOf(base)
 			}
-			return "ptr-nil-" + ctorOf(stripPtr(s))
+			return "ptr-nil" + lbl
 		case n == 2 && lvl == 0:
-			return "ptrptr-outer-nil"
+			return "ptrptr-outer-nil" + lbl
 		case n == 2 && lvl == 1:
-			return "ptrptr-inner-nil"
+			return "ptrptr-inner-nil" + lbl
 		}
-		return fmt.Sprintf("%s-nil-at-%d", pre, lvl)
+		return fmt.Sprintf("%s-nil-at-%d%s", pre, lvl, lbl)
 	case "slice":
 		return "slice-of-" + elemDesc(s)
 	case "map":
